@@ -441,8 +441,121 @@ def _cast_idiom2(ctx, s2):
             if v == SNONE and (e.conds, e.loops) not in sets:
                 problems.append(f"a None is put into the result buffer without setting `{flag}`: the result would hold None under a "
                                 f"non-nullable dtype")
+    problems += _cast_kind_problems(s2, buf)
     return (not problems, "; ".join(problems) if problems else "cast idiom: DataType(target, nullable=has_none) with has_none set "
-            "exactly where None is appended; otherwise inferred from the buffer")
+            "exactly where None is appended; every converted element is of the target kind; otherwise inferred from the buffer")
+
+
+# kinds whose instances satisfy isinstance(x, K): the kind itself and the kinds that are Python subclasses of it
+_KSUB = {"date": {"date", "datetime"}, "datetime": {"datetime"}, "int": {"int", "bool"}, "bool": {"bool"}, "float": {"float"},
+         "complex": {"complex"}, "str": {"str"}, "bytes": {"bytes"}}
+_ALLK = set(_KSUB)
+_KSUB["Vector"] = {"vector"}          # a nested vector element (cast recursively), not a scalar kind
+_KSUB["Table"] = {"vector"}
+
+
+def _split_kinds(c, x, kinds: Set[str]) -> Tuple[Set[str], Set[str]]:
+    """(kinds of x for which test c can hold, kinds for which it can fail) - isinstance tests on x under and / or / not."""
+    if c[0] == "call" and c[1] == ("name", "isinstance") and len(c[2]) == 2 and c[2][0] == x:
+        ks = c[2][1]
+        names = [ks] if ks[0] == "name" else list(ks[1]) if ks[0] == "tuple" else []
+        if names and all(n[0] == "name" and n[1] in _KSUB for n in names):
+            inside = set()
+            for n in names:
+                inside |= _KSUB[n[1]]
+            return kinds & inside, kinds - inside
+        return set(kinds), set(kinds)
+    if c[0] == "un" and c[1] == "Not":
+        y, n = _split_kinds(c[2], x, kinds)
+        return n, y
+    if c[0] == "bool":
+        parts = [_split_kinds(p_, x, kinds) for p_ in c[2]]
+        if c[1] == "and":
+            y = set(kinds)
+            n = set()
+            for py, pn in parts:
+                y &= py
+                n |= pn
+            return y, n
+        y, n = set(), set(kinds)
+        for py, pn in parts:
+            y |= py
+            n &= pn
+        return y, n
+    return set(kinds), set(kinds)
+
+
+def _term_kinds(t, x, kinds_x: Set[str], target: str, tparam) -> Set[str]:
+    """The kinds the value of term t can have when the source element x has one of kinds_x ('?' = unknown)."""
+    if t == x:
+        return set(kinds_x)
+    if t[0] == "ifexp":
+        yes, no = _split_kinds(t[1], x, kinds_x)
+        out = set()
+        if yes:
+            out |= _term_kinds(t[2], x, yes, target, tparam)
+        if no:
+            out |= _term_kinds(t[3], x, no, target, tparam)
+        return out
+    if t[0] == "call":
+        fn = t[1]
+        if fn[0] == "name" and fn[1] in _KSUB:
+            return {fn[1]}                               # int(x), float(x), str(x), date(...), datetime(...)
+        if fn == tparam:
+            return {target}                              # the target type called as a converter
+        if fn[0] == "attr" and fn[1][0] == "name" and fn[1][1] in ("date", "datetime") \
+                and fn[2] in ("fromisoformat", "fromordinal", "fromtimestamp", "today", "now", "combine", "strptime", "fromisocalendar"):
+            return {fn[1][1]}
+        if fn[0] == "attr" and fn[2] == "cast" and _term_kinds(fn[1], x, kinds_x, target, tparam) <= {"vector"}:
+            return {"vector"}                            # nested vectors are cast recursively
+        if fn[0] == "attr" and fn[2] == "date" and not t[2] and not t[3]:
+            inner = _term_kinds(fn[1], x, kinds_x, target, tparam)
+            if inner <= {"datetime"}:
+                return {"date"}
+    return {"?"}
+
+
+def _cast_kind_problems(s2, buf) -> List[str]:
+    """Where the result is labelled DataType(<target>, ...), every converted element must be OF the target kind - a pass-through of
+    the element under `isinstance(x, target)` also lets through the kinds that are Python subclasses of the target but distinct
+    serif kinds (datetime under date, bool under int)."""
+    from ..sites2 import const_dtype, leaves
+    from ..symx import NONE as SNONE
+    from ..symx import elements, reduce_ifexp, show, simplify, substitute
+    it = s2.it
+    f = s2.top
+    if len(f.params) < 2:
+        return []
+    tparam = ("param", f.params[1])
+    labelled = any((cd := const_dtype(dt)) is not None and cd[0] == tparam for dt in leaves(s2.dtype))
+    if not labelled:
+        return []
+    out = []
+    for e in elements(it, buf):
+        v = e.value if e.kind == "elem" else (e.term[2][0] if e.kind == "call" and e.term[2] else None)
+        if v is None or v == SNONE:
+            continue
+        xs = [("elem", (it.loops[L].domain if it.loops[L].domain is not None and it.loops[L].domain[0] != "tuple" else it.loops[L].iter), L)
+              for L in e.loops if it.loops[L].iter is not None]
+        if not xs:
+            continue
+        x = xs[-1]
+        if v[0] == "call" and v[1][0] == "attr" and v[1][1] == x and v[1][2] == f.name:
+            continue                                   # nested vector: cast recursively
+        for K in ("date", "datetime", "int", "float", "complex", "str", "bool"):
+            atoms = {("cmp", "Is", tparam, ("name", k)): (k == K) for k in ("date", "datetime", "int", "float", "complex", "str", "bool")}
+            atoms.update({("cmp", "Eq", tparam, ("name", k)): (k == K) for k in ("date", "datetime", "int", "float", "complex", "str", "bool")})
+            r = reduce_ifexp(simplify(v, atoms), atoms)
+            r = substitute(r, {tparam: ("name", K)})
+            ks = _term_kinds(r, x, _ALLK | {"other", "vector"}, K, ("name", K))
+            bad = sorted(k for k in ks if k not in (K, "?", "vector"))
+            if bad:
+                out.append(f"cast({K}) can leave an element of kind {bad} in a vector labelled <{K}> (`{show(r, it)[:70]}`): isinstance(x, {K}) "
+                           f"also holds for {bad}, a different kind - writing the element back would change the dtype")
+            elif "?" in ks:
+                out.append(f"cast({K}): the kind of the converted element `{show(r, it)[:60]}` is not determined by the conversion applied")
+    seen = set()
+    return [p_ for p_ in out if not (p_ in seen or seen.add(p_))]
 
 
 def _fillna_idiom2(ctx, s2):
@@ -1327,6 +1440,12 @@ def _validate_scalar(ctx) -> None:
 
 _V = "vector"
 MUTANTS = [
+    dict(id="cast-date-passes-datetime", module=_V,
+         old="				if isinstance(x, datetime):\n					return x.date()  # a datetime is not of kind date: keep the date part\n", new="",
+         rules=["a.site-typing"], desc="the defect repaired by fix b11e7f6: a datetime vector cast to date keeps datetimes under <date>"),
+    dict(id="cast-int-passes-int-instances", module=_V, old="			caster = target_type  # either a type like str/int, or a callable",
+         new="			caster = (lambda x: x if isinstance(x, target_type) else target_type(x))",
+         rules=["a.site-typing"], desc="cast(int) would keep bools under <int>"),
     dict(id="elementwise-scalar-reuses-dtype", module=_V,
          old="			result_values = tuple(None if x is None else op_func(x, other) for x in self._underlying)\n			# Infer dtype from result (e.g., int * 0.1 = float)\n			result_dtype = infer_dtype(result_values)",
          new="			result_values = tuple(None if x is None else op_func(x, other) for x in self._underlying)\n			# Infer dtype from result (e.g., int * 0.1 = float)\n			result_dtype = self._dtype",
